@@ -20,6 +20,14 @@ Record runobs := {
   r_user : list resobs                                                     (* user-domain results *)
 }.
 
+(* what the trackers (no constraint tolerance) attached to a step-level run retained: the position of the retained
+   object among the delivered user-domain results; None = nothing retained, Some (-1) = an object that is not one of
+   the delivered user-domain results (e.g. the transformed one) *)
+Record trkrun := {
+  tk_has_last : bool; tk_last : option Z;
+  tk_has_best : bool; tk_best_required : bool; tk_best : option Z
+}.
+
 Record case := {
   c_S : Q;
   c_codes_ok : bool;                                 (* every perturbation / boundary type code is in the generated enum tables *)
@@ -39,6 +47,7 @@ Record case := {
   c_opt : list resobs;                               (* optimizer-domain results of the scaled run *)
   c_eq : option (list Q);                            (* equation scaling held by the scaler after validation *)
   c_points : list (list Q * list Q * list Q);        (* user point, implementation image, implementation round trip *)
+  c_trk : option (trkrun * trkrun);                  (* step-level runs: what the trackers retained, without / with transforms *)
   c_fail : option (option cinfo * option cinfo * option cinfo)
                                                      (* an evaluator step at the start vector whose evaluation fails (no function
                                                         values): constraint info of the result without transforms, with transforms
@@ -164,6 +173,24 @@ Definition point_ok (S : Q) (ucfg ocfg : ccfg) (ss os : list Q) (eq : option (li
   && info_close S (match oi with Some ci => Some (cinfo_from_opt (Some ss) eq None ci) | None => None end) ui
   && (info_near S ui || Bool.eqb (feasible_point ucfg x) (feasible_point ocfg y)).
 
+(* trackers: the delivered user-domain results as the tracker model (Model/ConstraintInfo.v, C13) sees them when no
+   tolerance is configured: only "has function values" matters *)
+Definition titem_of (r : resobs) : titem :=
+  {| ti_fun := match r with RF _ _ _ (Some _) _ _ => true | _ => false end; ti_obj := None; ti_info := None |}.
+Definition oZ_eqb (a b : option Z) : bool :=
+  match a, b with Some x, Some y => Z.eqb x y | None, None => true | _, _ => false end.
+Definition is_fun_at (items : list titem) (z : Z) : bool :=
+  (0 <=? z)%Z && match nth_error items (Z.to_nat z) with Some it => ti_fun it | None => false end.
+Definition trk_ok (r : runobs) (t : trkrun) : bool :=
+  let items := map titem_of (r_user r) in
+  (negb (tk_has_last t)
+   || oZ_eqb (tk_last t) (option_map Z.of_nat (tracked_last None items)))     (* the last function result, as delivered *)
+  && (negb (tk_has_best t)
+      || match tk_best t with
+         | Some z => is_fun_at items z                                         (* a delivered user-domain function result *)
+         | None => negb (tk_best_required t) || negb (existsb ti_fun items)
+         end).
+
 Definition check_case (c : case) : bool :=
   let S := c_S c in
   let u := c_user c in
@@ -206,6 +233,7 @@ Definition check_case (c : case) : bool :=
       && forallb2 (gres_ok S (c_ss c) (c_os c) mB (c_samples c)) (r_user T) (c_opt c)
       (* random user-domain points: image, round trip, differences and feasibility *)
       && forallb (point_ok S ucfg (ccfg_of (r_lb T) (r_ub T) (r_lin T) None) (c_ss c) (c_os c) (c_eq c)) (c_points c)
+      && match c_trk c with Some (kp, ks) => trk_ok P kp && trk_ok T ks | None => true end
       (* a result without function values still reports the bound and linear differences / violations of its point *)
       && match c_fail c with
          | Some (ip, iu, io) =>
